@@ -148,3 +148,53 @@ Theorem C12_feasible_set_poly_exact :
 Proof. exact feasible_set_poly_exact. Qed.
 Print Assumptions C12_feasible_set_poly_exact.
 
+
+(* ================================================================================================================
+   7. THE VERIFIED ACCEPTANCE TEST of a feasible set read from the implementation (FeasCheck.v, extracted and run by
+      the model driver).  The set S is given over RANKS (an end point is an infinity or the index of a root in the
+      root list rs read from the implementation).  accept_feasible = Accept means: rs is accepted as the exact root
+      list (C11_accept_roots_exact), the rational sample points separate consecutive roots, and S equals the sweep
+      run on the ranks with the exact degree and the exact signs computed by the checker.  PROVED: then, for every
+      real closed field R and every valuation rho under which the assigned representations denote, the set
+      obtained by replacing rank i by the i-th root (phi vs) contains a real v exactly when the (possibly negated)
+      condition holds for the sign of p(rho, y := v), and it is in normal form.  Likewise for root constraints. *)
+From LP Require Import Scalar UPoly MPoly RefAlg RootCheck FeasCheck FeasSweepNat RefAlgSpec RefAlgRoots RefAlgArith RootCheckBase RootCheckTop.
+
+Theorem C12_accept_feasible_exact :
+  forall (R : rcfType) fuel (a : asg) (y : MPoly.var) (p : mpoly) (rs : seq rnum) (mids : seq (Z * Z)) sc negated
+         (S : seq (FeasSweep.interval Z)) (rho : MPoly.var -> R),
+  (forall v r, List.In (v, r) a -> rn_denotes (rn_norm r) (rho v)) ->
+  accept_feasible fuel a y p rs mids sc negated S = Accept ->
+  exists vs : seq R, dens (List.map rn_norm rs) vs /\ sorted <%R vs /\
+    let SR := List.map (map_iv Z R (phi vs)) S in
+    (forall v : R, set_contains R (@cmpR R) SR v =
+                   xorb negated (sc_consistent sc (zsg (mp_evalR (RootCheckBase.upd rho y v) p)))) /\
+    set_nf R (@cmpR R) SR = true.
+Proof. exact accept_feasible_exact. Qed.
+Print Assumptions C12_accept_feasible_exact.
+
+Theorem C12_accept_root_constraint_exact :
+  forall (R : rcfType) fuel (a : asg) (y : MPoly.var) (p : mpoly) (rs : seq rnum) (k : nat) sc negated
+         (S : seq (FeasSweep.interval Z)) (rho : MPoly.var -> R),
+  (forall v r, List.In (v, r) a -> rn_denotes (rn_norm r) (rho v)) ->
+  accept_root_constraint fuel a y p rs k sc negated S = Accept ->
+  exists vs : seq R, dens (List.map rn_norm rs) vs /\ sorted <%R vs /\
+    (((forall t, mp_evalR (RootCheckBase.upd rho y t) p = 0) /\ vs = [::]) \/
+     ((exists t, mp_evalR (RootCheckBase.upd rho y t) p != 0) /\
+      forall t, (t \in vs) = (mp_evalR (RootCheckBase.upd rho y t) p == 0))) /\
+    let SR := List.map (map_iv Z R (phi vs)) S in
+    (forall v : R, set_contains R (@cmpR R) SR v =
+                   xorb negated (root_constraint_evaluate R (@cmpR R) vs k sc v)) /\
+    set_nf R (@cmpR R) SR = true.
+Proof. exact accept_root_constraint_exact. Qed.
+Print Assumptions C12_accept_root_constraint_exact.
+
+(* the sweeps commute with every map that respects the order on the listed roots (ranks -> real roots) *)
+Theorem C12_sweep_natural :
+  forall (T U : Type) (cmpT : T -> T -> comparison) (cmpU : U -> U -> comparison) (f : T -> U) (roots : list T),
+  (forall a b, List.In a roots -> List.In b roots -> cmpU (f a) (f b) = cmpT a b) ->
+  forall degree sgn_const sgn_lc sign_mid sc negated,
+  List.map (map_iv T U f) (constraint_feasible_set T cmpT roots degree sgn_const sgn_lc sign_mid sc negated)
+  = constraint_feasible_set U cmpU (List.map f roots) degree sgn_const sgn_lc sign_mid sc negated.
+Proof. exact constraint_feasible_set_map. Qed.
+Print Assumptions C12_sweep_natural.
